@@ -1,217 +1,265 @@
 (* Replays omaptrace lines on the extracted omap model (eval) and evaluates property C04 on the
    implementation's own outputs (spec) against a reference sorted association list written here in
-   plain OCaml (not the extracted model). *)
+   plain OCaml (not the extracted model).  Two key/value types: kind M = Map[int,int], kind T =
+   Map[string,string] (token "~" = the empty string, the zero value).  fmt's %v of an int is its
+   decimal form and of a string the string itself: [raw] below; String() is compared for both. *)
+
+let nat (a : int) (b : int) = compare a b
+let big = 1 lsl 61      (* stands for math.MaxInt: only the sign of a comparison is ever used *)
 
 let cmp_of s : int -> int -> int =
-  let nat a b = compare a b in
-  if s = "n" then nat
-  else if s = "r" then (fun a b -> nat b a)
-  else if String.length s > 1 && s.[0] = 'm' then begin
+  let modk () =
     let k = int_of_string (String.sub s 1 (String.length s - 1)) in
     let k = if k <= 0 then 1 else k in
-    let md a = ((a mod k) + k) mod k in
-    fun a b -> nat (md a) (md b)
-  end else failwith "bad comparator"
+    fun a -> ((a mod k) + k) mod k in
+  let ext a b = if a < b then - big else if a > b then big else 0 in
+  if s = "n" then nat
+  else if s = "r" then (fun a b -> nat b a)
+  else if s = "a" then (fun a b -> a - b)
+  else if s = "t" then (fun a b -> 3 * (a - b))
+  else if s = "h" then (fun a b -> (a - b) * (1 lsl 32))
+  else if s = "A" then (fun a b -> b - a)
+  else if s = "D" then (fun a b -> 7 * (b - a))
+  else if s = "x" then ext
+  else if s = "X" then (fun a b -> ext b a)
+  else if String.length s > 1 && s.[0] = 'm' then (let md = modk () in fun a b -> nat (md a) (md b))
+  else if String.length s > 1 && s.[0] = 'M' then (let md = modk () in fun a b -> md a - md b)
+  else if String.length s > 1 && s.[0] = 'R' then (let md = modk () in fun a b -> md b - md a)
+  else failwith "bad comparator"
+
+let str_cmp_of s : string -> string -> int =
+  let bytewise a b =
+    let n = min (String.length a) (String.length b) in
+    let rec go i = if i >= n then String.length a - String.length b
+      else if a.[i] <> b.[i] then Char.code a.[i] - Char.code b.[i] else go (i + 1) in
+    go 0 in
+  let first a = if a = "" then 0 else Char.code a.[0] in
+  match s with
+  | "n" -> (fun a b -> compare a b)            (* OCaml's string order is byte-wise, like Go's *)
+  | "r" -> (fun a b -> compare b a)
+  | "l" -> (fun a b -> String.length a - String.length b)
+  | "L" -> (fun a b -> String.length b - String.length a)
+  | "b" -> bytewise
+  | "B" -> (fun a b -> bytewise b a)
+  | "f" -> (fun a b -> first a - first b)
+  | _ -> failwith "bad string comparator"
+
+(* how keys / values are written: [parse]/[show] in trace items, [raw] as fmt's %v prints them *)
+type 'a codec = { parse : string -> 'a; show : 'a -> string; raw : 'a -> string; zero : 'a }
+let int_codec = { parse = int_of_string; show = string_of_int; raw = string_of_int; zero = 0 }
+let str_codec = { parse = (fun s -> if s = "~" then "" else s); show = (fun s -> if s = "" then "~" else s);
+                  raw = (fun s -> s); zero = "" }
 
 let split_on c s = if s = "" then [] else String.split_on_char c s
 
 exception Fail of string
 let ok = function M.Ok a -> a | M.Panic -> raise (Fail "PANIC") | M.OutOfFuel -> raise (Fail "FUEL") | M.BadOracle -> raise (Fail "ORACLE")
 
-let num s = int_of_string s
-let key_of arg = match String.index_opt arg '=' with Some i -> num (String.sub arg (i + 1) (String.length arg - i - 1)) | None -> 0
+let key_arg arg = match String.index_opt arg '=' with Some i -> String.sub arg (i + 1) (String.length arg - i - 1) | None -> "0"
 
-(* op -> (through the copy?, letter, argument) *)
+(* op -> (letter, argument); a leading '@' (through the copy) is dropped: a copy is the same map *)
 let parse_op op =
   let op' = if String.length op > 0 && op.[0] = '@' then String.sub op 1 (String.length op - 1) else op in
   if op' = "" then ('?', "") else (op'.[0], String.sub op' 1 (String.length op' - 1))
 
-let fmt_string = function
+(* Map.String: "omap[" k:v k:v ... "]" with %v for keys and values; blanks shown as '_' *)
+let fmt_string kc vc = function
   | None -> "omap[]"
-  | Some es -> "omap[" ^ String.concat "_" (List.map (fun (k, v) -> string_of_int k ^ ":" ^ string_of_int v) es) ^ "]"
+  | Some es -> "omap[" ^ String.concat "_" (List.map (fun (k, v) -> kc.raw k ^ ":" ^ vc.raw v) es) ^ "]"
+
+let show_keys kc = function [] -> "empty" | ks -> String.concat "," (List.map kc.show ks)
+
+let eval_gen (kc : 'k codec) (vc : 'v codec) (cf : 'k -> 'k -> int) kind ops =
+  let zcmp a b = z_of_int (cf a b) in
+  let limit = M.limit_capped in
+  let zk = kc.zero and zv = vc.zero in
+  let items = ref [] in
+  (try
+    let m = ref (if kind = "n" then ok (M.new_func zcmp) else M.zero_map) in
+    let regs = Array.make 4 None and fresh = Array.make 4 false in
+    let used = ref 0 in
+    let touch r = if r + 1 > !used then used := r + 1 in
+    let state () = String.concat "/" (List.init !used (fun i ->
+      match regs.(i) with
+      | Some c when fresh.(i) ->
+        b01 (M.ivalid c) ^ "," ^ kc.show (ok (M.ikey zk zv !m c)) ^ "," ^ vc.show (ok (M.ivalue zk zv !m c))
+      | _ -> "x")) in
+    let edited () = Array.fill fresh 0 4 false in
+    let push s = items := s :: !items in
+    List.iter (fun op ->
+      let (c, arg) = parse_op op in
+      match c with
+      | 's' ->
+        (match String.index_opt arg '=' with
+         | Some i ->
+           let k = kc.parse (String.sub arg 0 i) and v = vc.parse (String.sub arg (i + 1) (String.length arg - i - 1)) in
+           (match M.mset zcmp limit !m k v with
+            | M.Ok (m', b) -> m := m'; edited (); push (b01 b)
+            | M.Panic -> raise (Fail "panic:nil")
+            | r -> ignore (ok r))
+         | None -> push "?")
+      | 'd' -> let (m', b) = ok (M.mdelete zcmp zv !m (kc.parse arg)) in m := m'; edited (); push (b01 b)
+      | 'c' -> m := M.mclear !m; edited (); push "-"
+      | 'g' -> let (v, okb) = M.mget_ok zcmp zv !m (kc.parse arg) in
+        push (vc.show (M.mget zcmp zv !m (kc.parse arg)) ^ "," ^ vc.show v ^ "," ^ b01 okb)
+      | 'l' -> push (string_of_int (int_of_z (M.mlen !m)))
+      | 'k' -> push (match ok (M.mkeys !m) with None -> "nil" | Some ks -> show_keys kc ks)
+      | 't' -> push (fmt_string kc vc (ok (M.mto_string zk zv !m)))
+      | 'F' | 'L' | 'S' | 'n' | 'p' | 'e' | 'N' | 'P' ->
+        if String.length arg < 1 || arg.[0] < '0' || arg.[0] > '3' then push "?" else begin
+          let r = Char.code arg.[0] - 48 in
+          let key () = kc.parse (key_arg arg) in
+          match c with
+          | 'F' -> regs.(r) <- Some (ok (M.mfirst !m)); fresh.(r) <- true; touch r; push (state ())
+          | 'L' -> regs.(r) <- Some (ok (M.mlast !m)); fresh.(r) <- true; touch r; push (state ())
+          | 'S' -> regs.(r) <- Some (ok (M.mseek zcmp zv !m (key ()))); fresh.(r) <- true; touch r; push (state ())
+          | 'e' -> (match regs.(r) with
+                    | None -> push "stale"
+                    | Some _ -> regs.(r) <- Some (ok (M.iseek zcmp zv !m (key ()))); fresh.(r) <- true; push (state ()))
+          | 'n' | 'p' ->
+            (match regs.(r) with
+             | Some cu when fresh.(r) ->
+               regs.(r) <- Some (ok ((if c = 'n' then M.inext else M.iprev) !m cu)); push (state ())
+             | _ -> push "stale")
+          | _ ->
+            (match regs.(r) with
+             | Some cu when fresh.(r) ->
+               let len = int_of_z (M.mlen !m) in
+               let cur = ref cu and es = ref [] and step = ref 0 in
+               while M.ivalid !cur && !step < len + 2 do
+                 es := (kc.show (ok (M.ikey zk zv !m !cur)) ^ "=" ^ vc.show (ok (M.ivalue zk zv !m !cur))) :: !es;
+                 cur := ok ((if c = 'N' then M.inext else M.iprev) !m !cur);
+                 incr step
+               done;
+               regs.(r) <- Some !cur;
+               let l = String.concat "," (List.rev !es) in
+               push ("s:" ^ (if l = "" then "." else l) ^ ":" ^ b01 (M.ivalid !cur))
+             | _ -> push "stale")
+        end
+      | _ -> push "?") ops
+  with Fail s -> items := s :: !items);
+  String.concat ";" (List.rev !items)
 
 let eval inp =
   match words inp with
   | "M" :: cs :: kind :: rest ->
-    let ops = match rest with [o] -> split_on ';' o | _ -> [] in
-    let cf = cmp_of cs in
-    let zcmp a b = z_of_int (cf a b) in
-    let limit = M.limit_capped in
-    let items = ref [] in
-    (try
-      let m = ref (if kind = "n" then ok (M.new_func zcmp) else M.zero_map) in
-      let regs = Array.make 4 None and fresh = Array.make 4 false in
-      let used = ref 0 in
-      let touch r = if r + 1 > !used then used := r + 1 in
-      let state () = String.concat "/" (List.init !used (fun i ->
-        match regs.(i) with
-        | Some c when fresh.(i) ->
-          b01 (M.ivalid c) ^ "," ^ string_of_int (ok (M.ikey 0 0 !m c)) ^ "," ^ string_of_int (ok (M.ivalue 0 0 !m c))
-        | _ -> "x")) in
-      let edited () = Array.fill fresh 0 4 false in
-      let push s = items := s :: !items in
-      List.iter (fun op ->
-        let (c, arg) = parse_op op in
-        match c with
-        | 's' ->
-          (match String.split_on_char '=' arg with
-           | [k; v] ->
-             (match M.mset zcmp limit !m (num k) (num v) with
-              | M.Ok (m', b) -> m := m'; edited (); push (b01 b)
-              | M.Panic -> raise (Fail "panic:nil")
-              | r -> ignore (ok r))
-           | _ -> push "?")
-        | 'd' -> let (m', b) = ok (M.mdelete zcmp 0 !m (num arg)) in m := m'; edited (); push (b01 b)
-        | 'c' -> m := M.mclear !m; edited (); push "-"
-        | 'g' -> let (v, okb) = M.mget_ok zcmp 0 !m (num arg) in
-          push (string_of_int (M.mget zcmp 0 !m (num arg)) ^ "," ^ string_of_int v ^ "," ^ b01 okb)
-        | 'l' -> push (string_of_int (int_of_z (M.mlen !m)))
-        | 'k' -> push (match ok (M.mkeys !m) with None -> "nil" | Some ks -> str_ints ks)
-        | 't' -> push (fmt_string (ok (M.mto_string 0 0 !m)))
-        | 'F' | 'L' | 'S' | 'n' | 'p' | 'e' | 'N' | 'P' ->
-          if String.length arg < 1 || arg.[0] < '0' || arg.[0] > '3' then push "?" else begin
-            let r = Char.code arg.[0] - 48 in
-            let key = key_of arg in
-            match c with
-            | 'F' -> regs.(r) <- Some (ok (M.mfirst !m)); fresh.(r) <- true; touch r; push (state ())
-            | 'L' -> regs.(r) <- Some (ok (M.mlast !m)); fresh.(r) <- true; touch r; push (state ())
-            | 'S' -> regs.(r) <- Some (ok (M.mseek zcmp 0 !m key)); fresh.(r) <- true; touch r; push (state ())
-            | 'e' -> (match regs.(r) with
-                      | None -> push "stale"
-                      | Some _ -> regs.(r) <- Some (ok (M.iseek zcmp 0 !m key)); fresh.(r) <- true; push (state ()))
-            | 'n' | 'p' ->
-              (match regs.(r) with
-               | Some cu when fresh.(r) ->
-                 regs.(r) <- Some (ok ((if c = 'n' then M.inext else M.iprev) !m cu)); push (state ())
-               | _ -> push "stale")
-            | _ ->
-              (match regs.(r) with
-               | Some cu when fresh.(r) ->
-                 let len = int_of_z (M.mlen !m) in
-                 let cur = ref cu and es = ref [] and step = ref 0 in
-                 while M.ivalid !cur && !step < len + 2 do
-                   es := (string_of_int (ok (M.ikey 0 0 !m !cur)) ^ "=" ^ string_of_int (ok (M.ivalue 0 0 !m !cur))) :: !es;
-                   cur := ok ((if c = 'N' then M.inext else M.iprev) !m !cur);
-                   incr step
-                 done;
-                 regs.(r) <- Some !cur;
-                 let l = String.concat "," (List.rev !es) in
-                 push ("s:" ^ (if l = "" then "." else l) ^ ":" ^ b01 (M.ivalid !cur))
-               | _ -> push "stale")
-          end
-        | _ -> push "?") ops
-    with Fail s -> items := s :: !items);
-    String.concat ";" (List.rev !items)
+    eval_gen int_codec int_codec (cmp_of cs) kind (match rest with [o] -> split_on ';' o | _ -> [])
+  | "T" :: cs :: kind :: rest ->
+    eval_gen str_codec str_codec (str_cmp_of cs) kind (match rest with [o] -> split_on ';' o | _ -> [])
   | _ -> "?"
 
 (* ------------------------------------------------------------------ the property on the implementation's output *)
+
+let spec_gen (kc : 'k codec) (vc : 'v codec) (cf : 'k -> 'k -> int) kind ops out =
+  let zero = (kind <> "n") in
+  (try
+    let l = ref [] in                                  (* the reference: entries ascending by key *)
+    let regs = Array.make 4 None and fresh = Array.make 4 false in  (* Some (Some i) at index i, Some None invalid *)
+    let used = ref 0 in
+    let touch r = if r + 1 > !used then used := r + 1 in
+    let edited () = Array.fill fresh 0 4 false in
+    let fail op msg = raise (Fail (Printf.sprintf "op %s: %s" op msg)) in
+    let expect op got want = if got <> want then fail op (Printf.sprintf "got %s, the reference map gives %s" got want) in
+    let entry i = List.nth !l i in
+    let inval = "0," ^ kc.show kc.zero ^ "," ^ vc.show vc.zero in
+    let state () = String.concat "/" (List.init !used (fun i ->
+      match regs.(i) with
+      | Some p when fresh.(i) ->
+        (match p with
+         | Some j -> let (k, v) = entry j in "1," ^ kc.show k ^ "," ^ vc.show v
+         | None -> inval)
+      | _ -> "x")) in
+    let seek_index k =
+      let rec go i = function [] -> None | (k', _) :: r -> if cf k' k >= 0 then Some i else go (i + 1) r in go 0 !l in
+    let rec go ops items =
+      match ops, items with
+      | [], [] -> ()
+      | [], it :: _ -> raise (Fail ("extra output " ^ it))
+      | op :: _, [] -> raise (Fail ("no output for " ^ op))
+      | op :: ops', it :: items' ->
+        if it = "hang" then fail op "hang";
+        let (c, arg) = parse_op op in
+        let n = List.length !l in
+        let continue = ref true in
+        (match c with
+         | 's' ->
+           (match String.index_opt arg '=' with
+            | Some i ->
+              let k = kc.parse (String.sub arg 0 i) and v = vc.parse (String.sub arg (i + 1) (String.length arg - i - 1)) in
+              if zero then begin
+                (* documented: calling Set on a zero Map will panic *)
+                if String.length it < 5 || String.sub it 0 5 <> "panic" then fail op "Set on a zero Map did not panic";
+                continue := false
+              end else begin
+                let present = List.exists (fun (k', _) -> cf k k' = 0) !l in
+                expect op it (b01 (not present));
+                l := if present then List.map (fun (k', v') -> if cf k k' = 0 then (k, v) else (k', v')) !l
+                     else (let (lo, hi) = List.partition (fun (k', _) -> cf k' k < 0) !l in lo @ ((k, v) :: hi));
+                edited ()
+              end
+            | None -> ())
+         | 'd' ->
+           let k = kc.parse arg in
+           let present = List.exists (fun (k', _) -> cf k k' = 0) !l in
+           expect op it (b01 present);
+           l := List.filter (fun (k', _) -> cf k k' <> 0) !l; edited ()
+         | 'c' -> expect op it "-"; l := []; edited ()
+         | 'g' ->
+           let k = kc.parse arg in
+           (match List.find_opt (fun (k', _) -> cf k k' = 0) !l with
+            | Some (_, v) -> expect op it (Printf.sprintf "%s,%s,1" (vc.show v) (vc.show v))
+            | None -> expect op it (Printf.sprintf "%s,%s,0" (vc.show vc.zero) (vc.show vc.zero)))
+         | 'l' -> expect op it (string_of_int n)
+         | 'k' -> expect op it (if n = 0 then "nil" else show_keys kc (List.map fst !l))
+         | 't' -> expect op it (fmt_string kc vc (Some !l))
+         | 'F' | 'L' | 'S' | 'n' | 'p' | 'e' | 'N' | 'P' when String.length arg >= 1 && arg.[0] >= '0' && arg.[0] <= '3' ->
+           let r = Char.code arg.[0] - 48 in
+           let key () = kc.parse (key_arg arg) in
+           if it = "stale" then () else begin
+             if String.length it > 0 && it.[String.length it - 1] = '!' then fail op "the method did not return its receiver";
+             (match c with
+              | 'F' -> regs.(r) <- Some (if n = 0 then None else Some 0); fresh.(r) <- true; touch r; expect op it (state ())
+              | 'L' -> regs.(r) <- Some (if n = 0 then None else Some (n - 1)); fresh.(r) <- true; touch r; expect op it (state ())
+              | 'S' -> regs.(r) <- Some (seek_index (key ())); fresh.(r) <- true; touch r; expect op it (state ())
+              | 'e' -> regs.(r) <- Some (seek_index (key ())); fresh.(r) <- true; expect op it (state ())
+              | 'n' | 'p' ->
+                (match regs.(r) with
+                 | Some p when fresh.(r) ->
+                   regs.(r) <- Some (match p with
+                     | None -> None
+                     | Some j -> if c = 'n' then (if j + 1 < n then Some (j + 1) else None)
+                                 else (if j > 0 then Some (j - 1) else None));
+                   expect op it (state ())
+                 | _ -> fail op "executed on a stale iterator")
+              | _ ->
+                (match regs.(r) with
+                 | Some p when fresh.(r) ->
+                   let es = match p with
+                     | None -> []
+                     | Some j ->
+                       let arr = Array.of_list !l in
+                       if c = 'N' then Array.to_list (Array.sub arr j (n - j))
+                       else List.rev (Array.to_list (Array.sub arr 0 (j + 1))) in
+                   let s = String.concat "," (List.map (fun (k, v) -> kc.show k ^ "=" ^ vc.show v) es) in
+                   expect op it ("s:" ^ (if s = "" then "." else s) ^ ":0");
+                   regs.(r) <- Some None
+                 | _ -> fail op "executed on a stale iterator"))
+           end
+         | _ -> ());
+        if !continue then begin
+          if String.length it >= 5 && String.sub it 0 5 = "panic" then fail op ("panic: " ^ it);
+          go ops' items'
+        end in
+    go ops (split_on ';' out); None
+  with Fail s -> Some s)
 
 let spec prop inp out =
   if prop <> "C04" then None else
   match words inp with
   | "M" :: cs :: kind :: rest ->
-    let ops = match rest with [o] -> split_on ';' o | _ -> [] in
-    let cf = cmp_of cs in
-    let zero = (kind <> "n") in
-    (try
-      let l = ref [] in                                  (* the reference: entries ascending by key *)
-      let regs = Array.make 4 None and fresh = Array.make 4 false in  (* Some (Some i) at index i, Some None invalid *)
-      let used = ref 0 in
-      let touch r = if r + 1 > !used then used := r + 1 in
-      let edited () = Array.fill fresh 0 4 false in
-      let fail op msg = raise (Fail (Printf.sprintf "op %s: %s" op msg)) in
-      let expect op got want = if got <> want then fail op (Printf.sprintf "got %s, the reference map gives %s" got want) in
-      let entry i = List.nth !l i in
-      let state () = String.concat "/" (List.init !used (fun i ->
-        match regs.(i) with
-        | Some p when fresh.(i) ->
-          (match p with
-           | Some j -> let (k, v) = entry j in "1," ^ string_of_int k ^ "," ^ string_of_int v
-           | None -> "0,0,0")
-        | _ -> "x")) in
-      let seek_index k =
-        let rec go i = function [] -> None | (k', _) :: r -> if cf k' k >= 0 then Some i else go (i + 1) r in go 0 !l in
-      let rec go ops items =
-        match ops, items with
-        | [], [] -> ()
-        | [], it :: _ -> raise (Fail ("extra output " ^ it))
-        | op :: _, [] -> raise (Fail ("no output for " ^ op))
-        | op :: ops', it :: items' ->
-          if it = "hang" then fail op "hang";
-          let (c, arg) = parse_op op in
-          let n = List.length !l in
-          let continue = ref true in
-          (match c with
-           | 's' ->
-             (match String.split_on_char '=' arg with
-              | [k; v] ->
-                let k = num k and v = num v in
-                if zero then begin
-                  (* documented: calling Set on a zero Map will panic *)
-                  if String.length it < 5 || String.sub it 0 5 <> "panic" then fail op "Set on a zero Map did not panic";
-                  continue := false
-                end else begin
-                  let present = List.exists (fun (k', _) -> cf k k' = 0) !l in
-                  expect op it (b01 (not present));
-                  l := if present then List.map (fun (k', v') -> if cf k k' = 0 then (k, v) else (k', v')) !l
-                       else (let (lo, hi) = List.partition (fun (k', _) -> cf k' k < 0) !l in lo @ ((k, v) :: hi));
-                  edited ()
-                end
-              | _ -> ())
-           | 'd' ->
-             let k = num arg in
-             let present = List.exists (fun (k', _) -> cf k k' = 0) !l in
-             expect op it (b01 present);
-             l := List.filter (fun (k', _) -> cf k k' <> 0) !l; edited ()
-           | 'c' -> expect op it "-"; l := []; edited ()
-           | 'g' ->
-             let k = num arg in
-             (match List.find_opt (fun (k', _) -> cf k k' = 0) !l with
-              | Some (_, v) -> expect op it (Printf.sprintf "%d,%d,1" v v)
-              | None -> expect op it "0,0,0")
-           | 'l' -> expect op it (string_of_int n)
-           | 'k' -> expect op it (if n = 0 then "nil" else str_ints (List.map fst !l))
-           | 't' -> expect op it (fmt_string (Some !l))
-           | 'F' | 'L' | 'S' | 'n' | 'p' | 'e' | 'N' | 'P' when String.length arg >= 1 && arg.[0] >= '0' && arg.[0] <= '3' ->
-             let r = Char.code arg.[0] - 48 in
-             let key = key_of arg in
-             if it = "stale" then () else begin
-               if String.length it > 0 && it.[String.length it - 1] = '!' then fail op "the method did not return its receiver";
-               (match c with
-                | 'F' -> regs.(r) <- Some (if n = 0 then None else Some 0); fresh.(r) <- true; touch r; expect op it (state ())
-                | 'L' -> regs.(r) <- Some (if n = 0 then None else Some (n - 1)); fresh.(r) <- true; touch r; expect op it (state ())
-                | 'S' -> regs.(r) <- Some (seek_index key); fresh.(r) <- true; touch r; expect op it (state ())
-                | 'e' -> regs.(r) <- Some (seek_index key); fresh.(r) <- true; expect op it (state ())
-                | 'n' | 'p' ->
-                  (match regs.(r) with
-                   | Some p when fresh.(r) ->
-                     regs.(r) <- Some (match p with
-                       | None -> None
-                       | Some j -> if c = 'n' then (if j + 1 < n then Some (j + 1) else None)
-                                   else (if j > 0 then Some (j - 1) else None));
-                     expect op it (state ())
-                   | _ -> fail op "executed on a stale iterator")
-                | _ ->
-                  (match regs.(r) with
-                   | Some p when fresh.(r) ->
-                     let es = match p with
-                       | None -> []
-                       | Some j ->
-                         let arr = Array.of_list !l in
-                         if c = 'N' then Array.to_list (Array.sub arr j (n - j))
-                         else List.rev (Array.to_list (Array.sub arr 0 (j + 1))) in
-                     let s = String.concat "," (List.map (fun (k, v) -> string_of_int k ^ "=" ^ string_of_int v) es) in
-                     expect op it ("s:" ^ (if s = "" then "." else s) ^ ":0");
-                     regs.(r) <- Some None
-                   | _ -> fail op "executed on a stale iterator"))
-             end
-           | _ -> ());
-          if !continue then begin
-            if String.length it >= 5 && String.sub it 0 5 = "panic" then fail op ("panic: " ^ it);
-            go ops' items'
-          end in
-      go ops (split_on ';' out); None
-    with Fail s -> Some s)
+    spec_gen int_codec int_codec (cmp_of cs) kind (match rest with [o] -> split_on ';' o | _ -> []) out
+  | "T" :: cs :: kind :: rest ->
+    spec_gen str_codec str_codec (str_cmp_of cs) kind (match rest with [o] -> split_on ';' o | _ -> []) out
   | _ -> None
 
 let () = run_main ~eval ~spec
